@@ -347,9 +347,12 @@ def events(s, nmax, level):
     """Mating events for a parent tuple of size s (indices are positions in the tuple).
     (proto, xconfig, nmating, nprogeny, nself, deviation bound or FULL).  level: 'q' quick, 'T' thorough,
     'L' light (expansion of the largest populations / history layer)."""
+    slim = level == "L4"          # largest populations of the thorough tier: a covering subset of the L events
+    if slim:
+        level = "L"
     big = {"q": 1, "T": 2, "L": 1}[level]
     med = {"q": 2, "T": FULL, "L": 1}[level]
-    two = FULL if level != "L" else FULL
+    two = FULL
     ev = []
     if s == 1:
         ev += [("SelfCross", [[0]], 1, 1, 0, two),
@@ -387,6 +390,9 @@ def events(s, nmax, level):
                ("SelfCross", [[0], [1], [2]], 1, 1, 0, big),
                ("TwoWayCross", [[0, 1], [1, 2]], 1, [1, 2], 0, big),
                ("TwoWayDHCross", [[0, 1], [2, 0]], [1, 1], 2, 0, big)]
+    if slim:
+        keep = {1: (0, 1, 3, 6), 2: (0, 1, 5, 7, 10, 13), 3: (0, 3, 5, 7, 10)}[s]
+        ev = [ev[i] for i in keep]
     out = []
     for e in ev:
         nm, npg = e[2], e[3]
@@ -622,7 +628,9 @@ def h_founders(tier, seed):
               (het, het, het)]
     picks3 = [tuple(sorted(p)) for p in picks3]
     if tier == "thorough":
-        return [(p, 3) for p in U1] + [(p, 2) for p in U2] + [(p, 2) for p in picks3]
+        deep = {(het,), (dh,), (((0, 1), (0, 0)),), (((1, 1), (1, 0)),)}
+        return ([(p, 3 if p in deep else 2) for p in U1] + [(p, 2) for i, p in enumerate(U2) if i % 2 == 0]
+                + [(p, 1) for i, p in enumerate(U2) if i % 2 == 1] + [(p, 2) for p in picks3])
     sub = [p for i, p in enumerate(U2) if i % 10 == 0]
     return [(p, 2) for p in U1] + [(p, 2) for p in sub] + [(p, 1) for p in picks3]
 
@@ -851,7 +859,7 @@ def run_sweep(ctx, ns, seed, only=None):
 def e_plan(tier):
     """[(m, expand populations up to n, offspring nmax, level)]"""
     if tier == "thorough":
-        return [(2, 3, 4, "T"), (2, 4, 4, "L4"), (3, 2, 3, "q")]
+        return [(2, 3, 4, "T"), (2, 4, 4, "L4"), (3, 2, 3, "L")]
     return [(2, 3, 3, "q")]
 
 
@@ -861,7 +869,6 @@ def shards(tier, seed):
         if level == "L4":
             pops = [p for p in universe(m, nexp) if len(p) == nexp]
             K = 96
-            level = "L"
         else:
             pops = universe(m, nexp)
             K = 96 if tier == "thorough" else 56
@@ -884,7 +891,9 @@ def run_shard(spec, ctx):
                        "parents_per_selection_max": 3, "sweep_N": sweep_N(ctx.tier),
                        "deviation_bounds": {"q": "2-gamete and DH k=1 events: all answers; k=2/nself events <=2; others <=1",
                                             "T": "<=4-gamete events: all answers; others <=2", "L": "2-gamete events all answers; others <=1"},
-                       "H_depth": "thorough: 3 from 1-individual founders, 2 from all 2-individual founders; quick: 2 / 1",
+                       "H_depth": "thorough: 3 from four 1-individual founders (incl. both double heterozygotes), 2 from the other 1-individual, "
+                                  "every second 2-individual and the 3-individual founders, 1 from the rest; quick: 2 from all 1-individual and every "
+                                  "tenth 2-individual founder, 1 from the 3-individual founders",
                        "effects": list(effects(ctx.seed)), "xoprob_q": q_value(ctx.seed)})
     if spec[0] == "E":
         _, m, nmax, level, pops = spec
@@ -912,9 +921,10 @@ def finalize(ctx, tier, seed):
               "S:edge-child-fixed", "S:edge-child-polymorphic"):
         assert f in ctx.flags, f
     for (m, nexp, nmx, level) in e_plan(tier):
-        lv = "L" if level == "L4" else level
+        if level == "L4":
+            continue
         for s in (1, 2, 3):
-            for ei in range(len(events(s, nmx, lv))):
+            for ei in range(len(events(s, nmx, level))):
                 assert f"event:{s}:{ei}" in ctx.flags, (s, ei)
     exp_states = sum(len(universe(m, nexp)) if level != "L4" else sum(1 for p in universe(m, nexp) if len(p) == nexp)
                      for (m, nexp, nmx, level) in e_plan(tier))
